@@ -616,6 +616,9 @@ def TState.dropLimits (ts : TState) (pq : Nat) : TState := { ts with limits := a
 /-- `sizeClassQueue.remove` (cleanup callback). -/
 def tRemoveScq (h : Hints) (x : Extras) (ts : TState) (q : ScqId) : M TState := do
   let ts ← tCancelAllQueued h x ts q ⟨cUnavailable, 0, 0, .queueRemoved⟩
+  -- cross-check: the removal of a queue is only scheduled while it has no workers, and the entry is
+  -- withdrawn when a worker appears (`Sched.lean` does not rely on this, the tree layer does)
+  if ts.s.workers.any (fun y => y.scq = q) then throw "tree: a size-class queue that still has workers is removed"
   let s := { ts.s with scqs := ts.s.scqs.filter (fun y => y.id ≠ q) }
   if s.scqs.any (fun y => y.id.pq = q.pq) then return (ts.dropScqTree q).setS s
   return ((ts.dropScqTree q).dropLimits q.pq).setS { s with pqs := s.pqs.filter (fun p => p.id ≠ q.pq) }
@@ -628,6 +631,9 @@ def TState.dropWorkerTree (ts : TState) (q : ScqId) (w : WId) : TState :=
 /-- `sizeClassQueue.removeStaleWorker` (cleanup callback). -/
 def tRemoveStaleWorker (h : Hints) (x : Extras) (ts : TState) (q : ScqId) (w : WId) (removalTime : Nat) : M TState := do
   let some wk := ts.s.worker? q w | return ts
+  -- cross-check: the removal of a worker is only scheduled while it is outside `Synchronize`
+  -- (`Sched.lean` does not rely on this, the tree layer does: the worker is in no `idleSynchronizingWorkers`)
+  if wk.parked then throw "tree: a worker that is parked inside Synchronize is removed"
   let ts ← match wk.task with
     | some t => tComplete h x ts t ⟨cUnavailable, 0, 0, .workerDisappeared⟩ false
     | none => pure ts
